@@ -6,6 +6,7 @@ CONSTANTS
     Design = "direct"
     Policy = "trust"
     RenameAt = "closed"
+    LossyNames = FALSE
     Memo = FALSE
     MaxClear = 0
     MaxExtra = 0
